@@ -2,6 +2,11 @@
 """Prints the prompt for a seeding sub-agent: only the property text and its own worktree (nothing from /verif)."""
 import json, sys
 pid, wt = sys.argv[1], sys.argv[2]
+import os
+prior = json.load(open("/tmp/prior_seeds.json")).get(pid, []) if os.path.exists("/tmp/prior_seeds.json") and len(sys.argv) > 3 else []
+ALREADY = ""
+if prior:
+    ALREADY = "\n\nOther people have ALREADY produced seeded defects for this property based on the following ideas - yours must use clearly DIFFERENT mechanisms and different code sites where possible:\n" + "\n".join("  - " + d for _, d in prior) + "\n"
 rec = [json.loads(l) for l in open("/verif/properties.jsonl") if json.loads(l)["id"] == pid][0]
 print(f"""You are helping to test a verification effort for the Python project geoffxy/conductor (a Bazel-inspired task runner: COND files define tasks; `cond run //pkg:task` plans and executes them in subprocesses). You work ONLY inside your own scratch git worktree of the repository: {wt}  (a detached checkout; do not touch /repo, /verif or any other directory; no network is available).
 
@@ -16,6 +21,7 @@ The property under study (this is the ONLY thing you are told about what is bein
   {rec['statement']}
   It is meant to hold: {rec['quantifier']['text']}
 
+{ALREADY}
 Your task: produce TWO independent, realistic source changes ("seeded defects") to the code under {wt}/src/conductor, each of which BREAKS this property while (a) the package still imports/compiles, (b) every test of the existing suite that passed before still passes. Each change must need something SPECIFIC to manifest - a particular interleaving/completion order, a crash or signal at a particular point, a multi-step sequence of operations, an unusual input, or two cooperating sites that each look fine alone - NOT something that ordinary use (e.g. any simple `cond run`) would expose at once. Think of the kind of regression a plausible refactoring or "optimisation" would introduce. The two changes should break the property through different mechanisms / different code sites.
 
 For each change i in (1, 2) deliver, under {wt}/_seed/<i>/ :
